@@ -209,7 +209,9 @@ def op_hdr_nul_name(ch, fl, lines, body):
 
 def op_hdr_odd_field(ch, fl, lines, body):
     l = ch.choice([b'X-A: a\x00b', b'X-A : 1', b': value', b'X-H: caf\xe9', b'X-E: \\x', b'X-E: \\', b'X-E: \\N{', b'X-E\\x: 1', b'X-CR: a\rb', b'X(A): 1', b'X-A: \x7f\x01',
-                   b'X-A:', b':', b'X-E: \\u00e9\\U0001F600', b'Cookie: \x00=;;;,', b'Cookie: a b c=d; =; "', b'Content-Type: ;;;=', b'Accept: ,;q=x,', b'Connection: \\x'],
+                   b'X-A:', b':', b'X-E: \\u00e9\\U0001F600', b'Cookie: \x00=;;;,', b'Cookie: a b c=d; =; "', b'Content-Type: ;;;=', b'Accept: ,;q=x,', b'Connection: \\x',
+                   # escapes the parser's unicode_escape decoding turns into characters outside latin-1, in the one header the response echoes
+                   b'Cookie: a="\\u20ac"', b'Cookie: k=\\u0100; j=1', b'Cookie: \\N{BULLET}=1'],
                   'odd-field')
     lines.insert(ch.draw(len(lines) + 1, 'pos'), l)
     return fl, lines, body
@@ -584,16 +586,38 @@ def _run(ctx):
                     did |= bool(c.peer.recv())
         return did
 
+    sio = dict(n=0)
+
+    def _oplog(kind, sock, info):
+        if kind == 'close' or info:       # bytes really moved (an EOF read again and again is not progress)
+            sio['n'] += 1
+    NET.oplog = _oplog
+
     def quiesce(cap=4000):
-        quiet = n = 0
+        quiet = n = dry = 0
+        seen = sio['n']
         while quiet < 3 and not st['viol']:
             act = tick()
             if len(m._queue) or m._tasks:
                 act += 1
-            if pump():
+            io = pump()
+            if io:
                 act += 1
             quiet = quiet + 1 if act <= 0 else 0
             n += 1
+            # "waits for more data, answers, or closes": all input has been delivered and the peers are idle, so a server that is doing
+            # any of the three runs out of events after a few iterations: over 24000 runs on the repaired tree the longest stretch of
+            # iterations with events queued and not one byte moving in either direction was 11, and the queue never held 16 events after
+            # an iteration (bytes moving or not).  40 such iterations in a row, or more than 256 events queued, is a server spinning on (and
+            # multiplying) its own events: it will never answer and starves every other connection.
+            if sio['n'] != seen:
+                seen, io = sio['n'], True
+            dry = 0 if io else dry + 1
+            if (dry > 40 and len(m._queue)) or len(m._queue) > 256:
+                names = sorted({e.name for _, _, (e, _) in list(m._queue._queue)[:20]} | {e.name for _, _, (e, _) in list(m._queue._priority_queue)[:20]})
+                fail('C14/livelock', 'no byte was read or written for %d loop iteration(s) and the server keeps queueing events (%d queued: %r): it '
+                     'spins on its own events instead of waiting, answering or closing' % (dry, len(m._queue), names))
+                return
             if n > cap:
                 raise HarnessLimit('C14: no quiescence after %d iterations' % cap)
 
